@@ -19,7 +19,7 @@ MODULES = {"C15": "sim.c15", "C16": "sim.c16", "C17": "sim.c17", "C18": "sim.c18
 DEFAULTS = {
     # property: (quick runs, thorough budget seconds, chunk)
     "C15": (4000, 600, 25),
-    "C16": (3000, 600, 20),
+    "C16": (2400, 600, 20),
     "C17": (208, 600, 2),
     "C18": (112, 600, 1),
 }
